@@ -7,11 +7,7 @@ import sys
 HERE = os.path.dirname(os.path.dirname(os.path.abspath(__file__)))
 sys.path.insert(0, HERE)
 
-NOT_APPLICABLE = {
-    "C06": "row bounds are integer formulas over runtime row counts (min/max/sum/product) and the remaining clause is "
-    "about runtime row dictionaries; no static rule in this family decides numeric truth for all inputs "
-    "(DESIGN.md section 4, C06)",
-}
+NOT_APPLICABLE = {}
 
 checks = []
 na = []
